@@ -772,9 +772,11 @@ func derivesFromConfig(v ssa.Value, d int) bool {
 		}
 	case *ssa.Parameter:
 		fn := x.Parent()
-		if theProgram == nil || fn.Object() != nil && fn.Object().Exported() {
+		if theProgram == nil {
 			return false
 		}
+		// (an exported setter may also be called by the application: then the timeout is the
+		// application's choice, like the operator's)
 		idx := -1
 		for i, q := range fn.Params {
 			if q == x {
